@@ -9,6 +9,8 @@
   * `flushS_exact`  : `0 < c ≤ Cmax`, `Emin ≤ e ≤ Emax`  →  `(flushOrRoundS m neg c e).same (.fin neg c e)`
   * `same_trans`, `same_symm` : `Spec.Val.same` is an equivalence (with `Sp.same_refl`)
   * `nat_lt_zpow`, `zpow_le_nat` : casts of `n < 10^d`, `10^d ≤ n`
+  * `mul_zpow_lt`, `le_mul_zpow` : `q < 10^a → a + k ≤ b → q·10^k < 10^b` and the converse bound
+  * `flushS_tiny_of_lt`, `flushS_huge_of_le` : the two facts above from a digit-count bound on `q`
 -/
 import D128.Proofs.SpecRound
 set_option autoImplicit false
@@ -80,5 +82,42 @@ theorem nat_lt_zpow {n d : Nat} (h : n < 10 ^ d) : (n : Rat) < (10 : Rat) ^ (d :
 
 theorem zpow_le_nat {n d : Nat} (h : 10 ^ d ≤ n) : (10 : Rat) ^ (d : Int) ≤ (n : Rat) := by
   rw [zpow_natCast]; exact_mod_cast h
+
+theorem mul_zpow_lt {q : Rat} {a k b : Int} (hq : q < (10 : Rat) ^ a) (h : a + k ≤ b) :
+    q * (10 : Rat) ^ k < (10 : Rat) ^ b := by
+  have hk : (0 : Rat) < (10 : Rat) ^ k := zpow_pos (by norm_num) _
+  calc q * (10 : Rat) ^ k < (10 : Rat) ^ a * (10 : Rat) ^ k := mul_lt_mul_of_pos_right hq hk
+    _ = (10 : Rat) ^ (a + k) := (zpow_add₀ (by norm_num) _ _).symm
+    _ ≤ (10 : Rat) ^ b := zpow_le_zpow_right₀ (by norm_num) h
+
+theorem le_mul_zpow {q : Rat} {a k b : Int} (hq : (10 : Rat) ^ a ≤ q) (h : b ≤ a + k) :
+    (10 : Rat) ^ b ≤ q * (10 : Rat) ^ k := by
+  have hk : (0 : Rat) < (10 : Rat) ^ k := zpow_pos (by norm_num) _
+  calc (10 : Rat) ^ b ≤ (10 : Rat) ^ (a + k) := zpow_le_zpow_right₀ (by norm_num) h
+    _ = (10 : Rat) ^ a * (10 : Rat) ^ k := zpow_add₀ (by norm_num) _ _
+    _ ≤ q * (10 : Rat) ^ k := mul_le_mul_of_nonneg_right hq hk.le
+
+/-- a magnitude with at most `a` digits before the point, scaled below `10^(Emin-1)` -/
+theorem flushS_tiny_of_lt (m : Mode) (neg : Bool) {q : Rat} (hq : 0 < q) {a k : Int}
+    (hqa : q < (10 : Rat) ^ a) (h : a + k ≤ -6177) :
+    Spec.flushOrRoundS m neg q k = .fin neg 0 Spec.Emin :=
+  flushS_tiny m neg hq k (mul_zpow_lt hqa (by unfold Spec.Emin; omega))
+
+/-- a magnitude of at least `10^a`, scaled to `10^6146` or more -/
+theorem flushS_huge_of_le (m : Mode) (neg : Bool) {q : Rat} (hq : 0 < q) {a k : Int}
+    (hqa : (10 : Rat) ^ a ≤ q) (h : 6146 ≤ a + k) :
+    Spec.flushOrRoundS m neg q k = .inf neg := by
+  apply flushS_huge m neg hq k
+  refine le_trans ?_ (le_mul_zpow hqa h)
+  have h1 : ((Spec.Cmax : Rat) + 1) ≤ (10 : Rat) ^ (35 : Int) := by
+    have := Cmax_upper
+    have h2 : ((Spec.Cmax + 1 : Nat) : Rat) ≤ ((10 ^ 35 : Nat) : Rat) := by exact_mod_cast this
+    push_cast at h2
+    rw [zpow_ofNat]; exact h2
+  have hp : (0 : Rat) < (10 : Rat) ^ Spec.Emax := zpow_pos (by norm_num) _
+  calc ((Spec.Cmax : Rat) + 1) * (10 : Rat) ^ Spec.Emax
+      ≤ (10 : Rat) ^ (35 : Int) * (10 : Rat) ^ Spec.Emax := mul_le_mul_of_nonneg_right h1 hp.le
+    _ = (10 : Rat) ^ (6146 : Int) := by
+        rw [← zpow_add₀ (by norm_num)]; rfl
 
 end NL
